@@ -8,6 +8,7 @@ import (
 	"saomc/world"
 
 	markettypes "github.com/SaoNetwork/sao/x/market/types"
+	modelkeeper "github.com/SaoNetwork/sao/x/model/keeper"
 	modeltypes "github.com/SaoNetwork/sao/x/model/types"
 	nodetypes "github.com/SaoNetwork/sao/x/node/types"
 	ordertypes "github.com/SaoNetwork/sao/x/order/types"
@@ -29,6 +30,7 @@ type LifeOpts struct {
 	Timeouts  []int32
 	RenewDur  []uint64
 	Update    bool // offer content updates on existing models
+	BadBases  bool // also offer updates whose base is stale / empty / a proper substring / malformed
 	ForcePush bool
 	Migrate   bool
 	Claim     bool
@@ -118,6 +120,16 @@ func lifeOps(w *world.World, ctx sdk.Context, o LifeOpts) []engine.Op {
 							if o.Update {
 								cid := meta.Commit + "|" + commitName(nextOrder)
 								out = append(out, Tx("update", "update("+args+")", StoreMsg(w, StoreP{Signer: world.O, Relayer: world.G, Gateway: world.G, DataId: d, CommitId: cid, Size: sz, Replica: rep, Duration: dur, Timeout: to, Cid: world.Cid2})))
+							}
+							if o.BadBases && sz == o.Sizes[0] && rep == o.Replicas[0] && dur == o.Durations[0] && to == o.Timeouts[0] {
+								bases := map[string]string{"empty": "", "substring": meta.Commit[:len(meta.Commit)/2], "triple": meta.Commit + "|x"}
+								if len(meta.Commits) >= 2 {
+									bases["stale"] = modelkeeper.CommitFromVersion(meta.Commits[len(meta.Commits)-2])
+								}
+								for _, bn := range sortedKeys(bases) {
+									cid := bases[bn] + "|" + commitName(nextOrder)
+									out = append(out, Tx("update-badbase", "update-badbase("+bn+","+args+")", StoreMsg(w, StoreP{Signer: world.O, Relayer: world.G, Gateway: world.G, DataId: d, CommitId: cid, Size: sz, Replica: rep, Duration: dur, Timeout: to, Cid: world.Cid2})))
+								}
 							}
 							if o.ForcePush {
 								cid := meta.Commit + "|" + commitName(nextOrder)
